@@ -766,7 +766,13 @@ func compare(res *caseResult, a, b *replica, dim, where string) {
 	}
 	for k := range a.o.aux {
 		if a.o.aux[k] != b.o.aux[k] {
-			res.AuxDiff = append(res.AuxDiff, k+":"+dim)
+			d, have := k+":"+dim, false
+			for _, x := range res.AuxDiff {
+				have = have || x == d
+			}
+			if !have {
+				res.AuxDiff = append(res.AuxDiff, d)
+			}
 		}
 	}
 }
